@@ -102,9 +102,11 @@ def witness_case(task, cover):
 def witness_agrees(task, cover, engine, obs):
     eo = dict(cover["inputs"].get("__observed__", {}))
     # frames written by the contracted _process_resend are not modelled one by one
+    # (nor is its outcome: the contract leaves "completed / stopped half way" open, so the fields it havocs are
+    #  not predictions of the engine)
     if any(w.get("opaque") for w in eo.get("W", [])):
-        eo.pop("W", None)
-        eo.pop("EV", None)
+        for k in ("W", "EV", "st", "was_active", "nout", "J_out"):
+            eo.pop(k, None)
     bad = sc.conn_agrees(eo, obs)
     if bad:
         obs["mismatch"] = bad
@@ -144,7 +146,10 @@ PROPERTY = Property(
         "A-IND: 'strictly increasing, nothing twice, nothing past a gap' follow from the per-message clauses by induction "
         "over the inbound history (not mechanised); pre-states range over everything satisfying Inv (I1 counters >= 1, "
         "I3 no journal row at or above the live counters, I4 resend bookkeeping, I6 writer present iff connected)",
-        "_process_resend behaves as its contract (C06): only retransmissions and gap fills are written, counters and state restored",
+        "_process_resend is replaced by an assumed, over-approximating contract (C06 is not built, so it is unchecked): it "
+        "writes only retransmissions and gap fills (no ResendRequest), does not touch the inbound counter, the resend "
+        "watermark or the delivered trace, and either completes (outbound counter and state restored) or stops half way "
+        "with an Exception (state RESENDREQ_HANDLING unless awaiting, outbound counter >= 1 with no journal row at or above it)",
         "Codec.encode / Journaler.persist_msg / set_seq_num abstract contracts (C05, C13); raw_msg is the frame msg was decoded "
         "from, so find_seq_no(raw_msg) = int(msg[34])",
         "A-HOOK: application hooks neither touch connection state nor raise; A-IO: transport calls do not raise; A-LOG",
